@@ -134,11 +134,13 @@ Ctx == [
   locked |-> << E("openBankData", [a |-> "b1"]), E("openData", [a |-> "srsxx"]), E("rt_noteOn", [ch |-> 0, k |-> 64, v |-> 127]) >>,
   \* ... and a chip count requested while it is locked: stored, not applied (everything that walks the chips must still see 2)
   lockedn |-> << E("openBankData", [a |-> "b1"]), E("openData", [a |-> "srsxx"]), E("setNumChips", [n |-> 8]), E("rt_noteOn", [ch |-> 0, k |-> 64, v |-> 127]) >>,
+  \* a looping song under an absurd tempo multiplier request (ignored since 8786f57)
+  fastloop |-> << E("openBankData", [a |-> "b1"]), E("openData", [a |-> "s2"]), E("setLoopEnabled", [v |-> 1]), E("setTempo", [t |-> "huge"]) >>,
   note  |-> << E("openBankData", [a |-> "b1"]), E("rt_noteOn", [ch |-> 0, k |-> 64, v |-> 127]), E("rt_noteOn", [ch |-> 9, k |-> 64, v |-> 127]),
                E("setVolumeRangeModel", [v |-> 3]) >> ]
 RECURSIVE Run(_, _)
 Run(St, evs) == IF evs = << >> THEN St ELSE Run(Spend(St, Head(evs)), Tail(evs))
-CtxNames == << "fresh", "bank", "song", "rej", "rejrew", "looprew", "locked", "lockedn", "note" >>
+CtxNames == << "fresh", "bank", "song", "rej", "rejrew", "looprew", "locked", "lockedn", "fastloop", "note" >>
 ChainMax == 1          \* calls per sweep history after the context prefix (1: no interference between the swept calls)
 \* the work list of one context, computed once (TLC does not memoise): its state, its prefix, the calls still to place
 SwOf(i) == LET c == CtxNames[i]  st0 == Run(New(44100), Ctx[c]) IN
